@@ -80,7 +80,7 @@ def run(rep):
     acc, info = tlc.validate_traces("Trace_Layout", cfg_t, [o["trace"] for o in outs], shards=12, tag="trc13")
     rep.traces_validated += len(acc)
     rep.extra.setdefault("trace_runs", []).append({"source": "TLC-enumerated compositions", "traces": len(outs), "accepted": len(acc), "wall_s": round(info["wall"], 1)})
-    nok = sum(1 for o in outs if o["res"]["status"] == "ok")
+    nok = sum(1 for o in outs if o["res"]["status"] != "pyxform_error")  # only rejections by the converter mean the generator left the grammar; crashes and malformed output go to TLC as violations
     if nok < 0.9 * len(outs):
         bad = next(o for o in outs if o["res"]["status"] != "ok")
         rep.extra["first_not_ok"] = {"steps": bad["case"]["steps"], "message": bad["res"].get("message")}
